@@ -698,6 +698,19 @@ class Scen:
         self.ctx.count(self.stream + ".ops", (self.label, len(self.script)), True, f"{name}:{'ok' if err is None else err}")
         self.tok(tokname, lambda o, real=real: self.cmp(name, o.split(":")[0], real))
         self.cmp_index_files()
+        if err is None and path is not None:
+            # direct oracle for the edit itself: it did to the index what its name says
+            idx, wd, head = self.read_index(), self.snapshot(), (self.trees[self.head] if self.head else {})
+            got = idx.get(path)
+            got = None if got is None else (got[0], got[1])
+            if name == "stage":
+                want = (wd[path]["kind"], wd[path]["cid"]) if path in wd else None
+            elif name == "unstage":
+                want = head.get(path)
+            else:
+                want = None
+            if got != want:
+                self.ctx.oracle_fail(self.stream, self.case(path=hx(path)), f"after {name} the index entry of {path!r} is {got}, expected {want}")
 
     def do_stage(self, s):
         p = unhx(s["path"])
